@@ -224,7 +224,7 @@ def bvLshr (s : Simp) (size : Nat) (x : Rep) (ssize : Nat) (shift : Rep) : Excep
   | .con k =>
     if k = 0 then .ok (.bv size x)
     else match x with
-      | .con n => .ok (mkBV s (.int (n / 2 ^ k : Nat)) size)
+      | .con n => .ok (mkBV s (.int (n >>> k : Nat)) size)   -- Python `int >> int` (any shift amount)
       | .sym _ => if k ≥ size then .ok (.bv size (.con 0)) else symbolic
   | .sym _ => symbolic
 
@@ -367,16 +367,6 @@ def bvSmod (s : Simp) (size : Nat) (x : Rep) (osize : Nat) (y : Rep) (abs : Opti
       | .con a => .ok (mkBV s (.term (.bin .srem (.lit size a) (.lit size b))) size)
       | .sym _ => symbolic
   | .sym _ => symbolic
-
-/-- modular exponentiation by squaring: what `pow(lhs, rhs, 1 << size)` computes, without ever building
-    an integer wider than `2*size` bits -/
-def powMod (b e m : Nat) : Nat :=
-  if h : e = 0 then 1 % m
-  else
-    let half := powMod ((b * b) % m) (e / 2) m
-    if e % 2 = 1 then (b * half) % m else half
-termination_by e
-decreasing_by omega
 
 def bvExp (s : Simp) (size : Nat) (x : Rep) (osize : Nat) (y : Rep)
     (expAbs : Option String) (mulAbs : Option String) (smtExpByConst : Nat) : Except PyErr HV := do
